@@ -276,14 +276,20 @@ def prior_calls(rng, c, obj, counters, k=(0, 3)):
     # and sometimes a call that is (rightly) refused: a parameter vector of the wrong length, a non-numeric one.  Whatever it raises,
     # it must not leave the object half-updated
     if rng.random() < 0.4:
-        bad_arg = rng.choice([lambda: np.array(list(free_theta(c, c.theta)) + [1.0, 2.0, 3.0, 4.0, 5.0, 6.0]), lambda: "not a vector", lambda: np.array([])])()
+        bad_arg = rng.choice([lambda: np.array(list(free_theta(c, c.theta)) + [1.0, 2.0, 3.0, 4.0, 5.0, 6.0]), lambda: "not a vector", lambda: np.array([]),
+                              lambda: np.array([7.0] * (len(free_theta(c, c.theta)) + c.nS + 3)), lambda: np.array([7.0] * max(1, c.nP - 1 if c.target_param else c.nP + 1))])()
+        entry = rng.choice(["cost", "sensitivity", "residual", "costIV", "costIV", "residualIV", "sensitivityIV"])
+        if entry.endswith("IV"):
+            # for the initial-value entry points only arguments that cannot be read as a valid (theta, x0) vector in any accepted form
+            # (pygom accepts full, target-only and states-only lengths): empty, longer than every form, or not numeric
+            bad_arg = rng.choice([lambda: "not a vector", lambda: np.array([]), lambda: np.array([7.0] * (c.nP + c.nS + rng.randint(1, 4)))])()
         try:
             with contextlib.redirect_stdout(io.StringIO()), np.errstate(all="ignore"):
-                getattr(obj, rng.choice(["cost", "sensitivity", "residual"]))(bad_arg)
+                getattr(obj, entry)(bad_arg)
             counters["refused_calls_accepted"] = counters.get("refused_calls_accepted", 0) + 1
         except Exception:
             counters["refused_calls"] = counters.get("refused_calls", 0) + 1
-        done.append("<refused call>")
+        done.append("<refused call %s(%s)>" % (entry, "str" if isinstance(bad_arg, str) else "len %d" % len(bad_arg)))
     counters["prior_calls"] = counters.get("prior_calls", 0) + len(done)
     return done
 
